@@ -701,7 +701,41 @@ def c10(ctx):
                   "every (evaluator, spelling) pair, constant and postfix operator enumerated by spec/MCVocab.tla x argument samples over the domain (edges, halves, integers, large / tiny / negative values, seeded random at five scales): exact functions bit- and variant-exact, the others within 1e-9 relative of the host math library and closed forms, Lambert W by its defining identity, non-integer factorial also by the recurrence, eval_i64 real-valued functions within 1; non-trivial = every (pair, argument) call",
                   extra={"invariants_checked": ["Spelled", "ConstSpelled", "NeedsParen", "Vocab!ReadmeAgrees", "Vocab!PrefixFree"], "pairs": vr["beh"], "exhaustive": True}, spec_viol=sv)
 
-CHECKS = {"C10": c10, "C05": c05, "C07": c07, "C08": c08, "C18": c18, "C19": c19, "C17": c17, "C16": c16, "C02": c02, "C11": c11, "C06": c06, "C09": c09, "C01": c01, "C03": c03, "C04": c04, "C12": c12, "C13": c13, "C14": c14, "C20": c20}
+def c15(ctx):
+    """the evaluators agree on their common sub-language: one rendering, two evaluators"""
+    q = ctx.quick()
+    vlib.vocab_json()          # also checks spec/Common.tla's ASSUMEs (sub-languages are common, number and f64 share one vocabulary)
+    # spec: the same text is the same expression in every evaluator (every short string), the integer clause at word size W
+    lex = run_lexer_models(ctx, EVALS, ["lit", "kw2", "kw3"], 3 if q else 4, ["CommonSyntax", "CommonValue"])
+    semr = semantic_models(ctx, 6 if q else 8, ("C15IntNum", "C06Exact", "C09IntegerWhenFits"))
+    models = run_grammar_models(ctx, ["i64", "num", "dec"], (lambda e: 5 if q else 6), [])
+    vr = simple_model(ctx, "MCVocab", "INIT Init\nNEXT Next\nCHECK_DEADLOCK FALSE\nINVARIANT Spelled ConstSpelled NeedsParen Emit\n", "vocab")
+    def jobs(profile):
+        js = []
+        for pair, e, ma in [("i64-num", "i64", 40 if q else 400), ("num-f64", "num", 24 if q else 200), ("dec-f64", "dec", 40 if q else 400)]:
+            m = models[e]
+            for sh in range(4):
+                js.append(base_job(ctx, "cross", "%s_%s_%d" % (profile, pair, sh), profile, pair=pair, beh=m["beh_path"], shard=sh, nshards=4, max_assign=ma,
+                                   event_every=300, event_cap=1500))
+        for sh in range(2):
+            js.append(base_job(ctx, "cross", "%s_cpx_%d" % (profile, sh), profile, pair="cpx-f64", beh=vr["beh_path"], shard=sh, nshards=2, samples_per_pair=150 if q else 20000, event_every=50, event_cap=1500))
+        for sh in range(4):
+            js.append(base_job(ctx, "cross", "%s_numvocab_%d" % (profile, sh), profile, pair="num-f64-vocab", beh=vr["beh_path"], shard=sh, nshards=4, event_every=200, event_cap=1000))
+        js.append(base_job(ctx, "cross", "%s_cpxops" % profile, profile, pair="cpx-f64-ops", samples_per_pair=150 if q else 20000, event_every=50, event_cap=1500))
+        return js
+    f, s = run_jobs(ctx, jobs)
+    allm = list(lex.values()) + list(models.values()) + [vr, semr]
+    sv = [(r.get("name", "?"), r["violated"], r["log"]) for r in allm if r["violated"]]
+    return finish(ctx, {"cross_int", "cross_float", "cross_complex", "cross_decimal"}, allm, f, s,
+                  "one rendering, two evaluators, both results from the real code; the reference interpreter only decides the scope of each clause. "
+                  "i64-num: every integer-expression token sequence up to N (spec/Common.tla IntLang) x the integer boundary pool x placeholders incl. i64::MIN/MAX - eval_i64 Ok(v) requires eval_number Integer(v); "
+                  "num-f64: every token sequence of the shared grammar up to N x literal pool x placeholders, and every function / constant / postfix operator of the shared vocabulary on a signed mixed Integer/Float pool (one argument, every ordered pair, every list of up to three) - when all intermediates are finite, < 2^53, never -0 and no Integer^negative Integer occurs, the numeric values must be identical; "
+                  "cpx-f64: every operator and every function both offer, applied directly to real operands (edges, 1e-9 .. 1e300, seeded random at six scales) - inside the real domain (eval_f64 finite) within 1e-9; "
+                  "dec-f64: every token sequence over + * / ^ sqrt exp ln pow up to N x positive literal pool, well-conditioned by a first-order error bound - within 1e-9 relative; non-trivial = in-scope comparisons with >= 1 operator",
+                  extra={"invariants_checked": ["Common!CommonOffered", "Common!SameVocabulary", "Common!AliasesShared", "MCLexer!CommonSyntax", "MCLexer!CommonValue", "MCSem!C15IntNum"],
+                         "interpreter_vectors_reproduced": semr["selftest"]["vectors"], "exhaustive": True}, spec_viol=sv)
+
+CHECKS = {"C15": c15, "C10": c10, "C05": c05, "C07": c07, "C08": c08, "C18": c18, "C19": c19, "C17": c17, "C16": c16, "C02": c02, "C11": c11, "C06": c06, "C09": c09, "C01": c01, "C03": c03, "C04": c04, "C12": c12, "C13": c13, "C14": c14, "C20": c20}
 
 def replay(prop, path):
     f = json.load(open(path))
